@@ -125,7 +125,8 @@ fn fixed(header: &[&str], ops: &[&str]) -> Case {
 }
 
 fn gen(rng: &mut Rng, i: usize) -> Case {
-    // the witnesses of Props/C11.lean, replayed on the real code
+    // the witnesses of the former findings F6 / F6b (now fixed: examples in Props/C11.lean), replayed on
+    // the real code as the first cases of every run
     match i {
         0 => {
             return fixed(
@@ -232,9 +233,10 @@ fn gen(rng: &mut Rng, i: usize) -> Case {
         let cs = mode; // cached side
         let ls = if mode == 'L' { 'R' } else { 'L' }; // loop side
         let rounds = g.rng.range(1, 4);
-        // per loop-side replica: Terminate in the same batch as the last FlushAndRestart?
+        // per loop-side replica: Terminate in the same batch as the last FlushAndRestart? (outside the
+        // input contract: `End` flushes at FlushAndRestart; kept, rarely, for the correspondence check)
         let term_same: Vec<bool> = (0..n_side(ls)).map(|_| false).collect::<Vec<_>>();
-        let term_same: Vec<bool> = if g.rng.chance(1, 8) {
+        let term_same: Vec<bool> = if g.rng.chance(1, 16) {
             term_same.iter().map(|_| g.rng.chance(1, 2)).collect()
         } else {
             term_same
